@@ -70,19 +70,40 @@ func loadProgram(cfg LoadConfig) (*Program, error) {
 	if err != nil || cfg.Overlay != nil {
 		return p, err
 	}
-	overlay, cloned := p.sharedHelperOverlay()
-	if len(overlay) == 0 {
+	var p2 *Program
+	var cloned []string
+	// with the small leaf helpers first; if that rewriting does not type-check (a leaf called from
+	// inside another cloned helper), with the blocking helpers alone
+	for _, leaves := range []bool{true, false} {
+		overlay, cl := p.sharedHelperOverlay(leaves)
+		if len(overlay) == 0 {
+			if leaves {
+				continue
+			}
+			return p, nil
+		}
+		cfg2 := cfg
+		cfg2.Overlay = overlay
+		q, err := loadProgramOnce(cfg2)
+		if err != nil {
+			// the rewriting must never make the analysis fail: fall back to the program as written
+			p.CloneNote = "cloning of " + strings.Join(cl, ", ") + " abandoned: " + err.Error()
+			if os.Getenv("ELECTLINT_DEBUG_CLONES") != "" {
+				fmt.Fprintf(os.Stderr, "clone abandoned: %s\n", p.CloneNote)
+			}
+			continue
+		}
+		p2, cloned = q, cl
+		break
+	}
+	if p2 == nil {
 		return p, nil
 	}
-	cfg2 := cfg
-	cfg2.Overlay = overlay
-	p2, err := loadProgramOnce(cfg2)
-	if err != nil {
-		// the rewriting must never make the analysis fail: fall back to the program as written
-		p.CloneNote = "cloning of " + strings.Join(cloned, ", ") + " abandoned: " + err.Error()
-		return p, nil
-	}
+	p.CloneNote = ""
 	p2.Cloned = cloned
+	if os.Getenv("ELECTLINT_DEBUG_CLONES") != "" {
+		fmt.Fprintf(os.Stderr, "cloned: %v\n", cloned)
+	}
 	p2.NumFuncs, p2.NumBlock, p2.NumInstr = p.NumFuncs, p.NumBlock, p.NumInstr // sizes of the source as written
 	return p2, nil
 }
